@@ -163,6 +163,8 @@ func main() {
 		}
 	case "manifest":
 		writeManifest()
+	case "designmd":
+		writeDesignMD()
 	case "guards":
 		// debug aid: checker guards <unit> <func>... — calls, stores and returns with their dominating guards
 		u, err := LoadUnit(opts.Repo, args[1], configsFor("quick")[0])
